@@ -19,6 +19,7 @@ import os
 import time
 import traceback
 import hashlib
+import sys
 import signal
 
 
@@ -40,6 +41,7 @@ def _key_hash(key):
 
 
 _MOD = None
+_MONITOR = None
 
 
 def _init_worker(modname):
@@ -50,6 +52,16 @@ def _init_worker(modname):
     init = getattr(_MOD, 'init_worker', None)
     if init:
         init()
+    # run-time enforcement of the sidecar contracts on the real functions while the property module drives the API
+    global _MONITOR
+    _MONITOR = None
+    if os.environ.get('VERIF_MONITORS', '1') != '0' and getattr(_MOD, 'MONITORS', True):
+        try:
+            from pyvc import monitor
+            monitor.install_all(getattr(_MOD, 'MONITOR_ONLY', None))
+            _MONITOR = monitor
+        except Exception:
+            sys.stderr.write('monitor installation failed (contracts are not enforced at run time):\n' + traceback.format_exc())
 
 
 def _run_chunk(chunk):
@@ -61,6 +73,18 @@ def _run_chunk(chunk):
         except Exception:  # a crash of the harness itself: never a verdict
             oc = {'key': json.dumps(case, sort_keys=True, default=str)[:200], 'nontrivial': False,
                   'failures': [], 'skipped': True, 'harness_error': traceback.format_exc()[-1500:]}
+        if _MONITOR is not None:
+            pre_miss = 0
+            for v in _MONITOR.drain():
+                if v['kind'] == 'requires':
+                    pre_miss += 1
+                    oc.setdefault('pre_miss_detail', []).append('%s: %s (%s)' % (v['target'], v['clause'][:120], v['detail'][:80]))
+                    continue
+                sig = 'contract/%s/%s/%s' % (v['target'], v['kind'], hashlib.sha1(v['clause'].encode()).hexdigest()[:8])
+                oc['failures'] = list(oc['failures']) + [Failure(v['target'], 'contract-' + v['kind'],
+                                                                 '%s -- %s' % (v['clause'], v['detail']), sig)]
+            oc['pre_miss'] = pre_miss
+            oc['monitored'] = dict(_MONITOR.STATS)
         oc['case'] = case
         oc['secs'] = time.time() - t0
         out.append(oc)
@@ -76,7 +100,7 @@ def run_bounded(modname, tier, seed, budget_s, nproc=None, chunk=None, max_cases
     t_start = time.time()
     deadline = t_start + budget_s
     stats = {'evaluations': 0, 'distinct': set(), 'failures': [], 'samples': [], 'skipped': 0,
-             'harness_errors': [], 'exhausted': False, 'truncated': False, 'slowest': 0.0,
+             'harness_errors': [], 'exhausted': False, 'truncated': False, 'slowest': 0.0, 'pre_miss': 0, 'monitored': {},
              'distinct_all': set()}
     gen = mod.cases(tier, seed)
 
@@ -123,6 +147,12 @@ def run_bounded(modname, tier, seed, budget_s, nproc=None, chunk=None, max_cases
                     stats['skipped'] += 1
                     continue
                 stats['evaluations'] += 1
+                stats['pre_miss'] += oc.get('pre_miss', 0)
+                for d in oc.get('pre_miss_detail', [])[:3]:
+                    if len(stats.setdefault('pre_miss_detail', [])) < 5 and d not in stats['pre_miss_detail']:
+                        stats['pre_miss_detail'].append(d)
+                for k, v in (oc.get('monitored') or {}).items():
+                    stats['monitored'][k] = max(stats['monitored'].get(k, 0), v)
                 stats['slowest'] = max(stats['slowest'], oc.get('secs', 0.0))
                 h = _key_hash(oc['key'])
                 stats['distinct_all'].add(h)
